@@ -22,11 +22,28 @@ def rule_world():
     return w
 
 
-def make_rule(rule_name):
-    """params entry: builds the Rule instance by executing the real constructor"""
+def make_rule(rule_name, reused=False):
+    """params entry: builds the Rule instance by executing the real constructor.  reused=True: the instance has been used for earlier
+    validations, so the per-call state a validation pass keeps on it (_node, _node_children_names, _node_index) holds arbitrary leftovers."""
     def build(ip):
         import metapype.eml.rule as rule_mod
-        return ip.call(rule_mod.Rule, [rule_name], {})
+        r = ip.call(rule_mod.Rule, [rule_name], {})
+        if reused:
+            c = ip.c
+            t = z3.Int("a_leftover_names")
+            c.assume(c.ty_fact(Val.ref(t), "list:str"))
+            j = z3.Int("lo_j")
+            e = c.heap.get("lelem")[t]
+            c.assume(smt.FA([j], Val.is_strv(e[j]), patterns=[e[j]]))
+            r.fields["_node_children_names"] = Sym(t, "list:str")
+            idx = z3.Int("a_leftover_index")
+            c.assume(idx >= 0)
+            r.fields["_node_index"] = Sym(idx, "int")
+            n = z3.Int("a_leftover_node")
+            c.assume(c.ty_fact(Val.ref(n), "Node"))
+            r.fields["_node"] = Sym(n, "Node")
+            c.assumptions_used.add("the Rule instance may have been used before: its per-call fields hold arbitrary leftovers at entry")
+        return r
     return build
 
 
